@@ -41,6 +41,7 @@ ATTEMPTS = list(range(1, 41))
 
 def check(ctx):
     idx = ctx.index
+    ai.reset_budget()
     d1_schedules(ctx, idx)
     d2_apply(ctx, idx)
     d3_call(ctx, idx)
@@ -404,7 +405,7 @@ def _schedule_calls(t):
 def _path_terms(p):
     out = list(p.conds) + list(p.env.values()) + list(p.store.values())
     for e, _ in p.effects:
-        out.append(e[2] if e[0] == 'store' else e) if e[0] != 'stmt' else None
+        out.append(e[2] if e[0] in ('store', 'setcfg') else e) if e[0] != 'stmt' else None
     if p.value is not None:
         out.append(p.value)
     return out
@@ -492,7 +493,10 @@ def d2_apply(ctx, idx):
                     r_clamp.undecided(construct, 'schedule call with unexpected arguments')
                     continue
                 if not nguards:
-                    if arg == pN:
+                    if arg[0] == 'call' and arg[1] == 'max' and set(arg[2]) == {pN, ai.num(1)} and not arg[3]:
+                        r_clamp.ok(construct, 'attempts below 1 count as 1 (max)', where)
+                        r_clamp.ok(construct + ' [>= 1]', 'attempts >= 1 are passed unchanged (max)', where)
+                    elif arg == pN:
                         r_clamp.violation(construct, 'the attempt number reaches the schedule without the `< 1 -> 1` clamp: '
                                           'attempt 0 or a negative attempt is handed to the schedule (GeometricCredit then returns '
                                           'factor**(attempt-1) > 1)', where, expected='if attempt_number < 1: attempt_number = 1')
@@ -966,6 +970,7 @@ BENIGN = [
     Benign('reciprocal-float-inside', CREDIT, "credit = 1.0 / attempt", "credit = 1 / float(attempt)"),
     Benign('credit-one-liner', BASE, "        credit = self.config['attempt_based_credit'](attempt_number)\n        credit = float(credit)  # In case graders return integers 0 or 1\n        credit = round(credit, 4)\n",
            "        credit = round(float(self.config['attempt_based_credit'](attempt_number)), 4)\n"),
+    Benign('clamp-by-max', BASE, "        if attempt_number < 1:  # Just in case edX has issues\n            attempt_number = 1\n", "        attempt_number = max(attempt_number, 1)\n"),
     Benign('note-condition-reordered', BASE, "if self.config['attempt_based_credit_msg'] and changed_result:", "if changed_result and self.config['attempt_based_credit_msg']:"),
     Benign('linear-interpolation-rearranged', CREDIT, "credit = 1 + (min_cred - 1) * steps / decrease_steps", "credit = 1 - (1 - min_cred) * (steps / decrease_steps)"),
     Benign('guard-is-not-none', BASE, "        if self.config['attempt_based_credit']:\n            self.apply", "        if self.config['attempt_based_credit'] is not None:\n            self.apply"),
